@@ -1327,6 +1327,16 @@ impl SwarmDriver {
     pub fn verif_fetcher_age(&mut self, d: Duration) {
         self.replication_fetcher.verif_age(d)
     }
+    /// What the driver does when a peer drops out of the routing table (connection errors, eviction).
+    pub fn verif_remove_peer(&mut self, peer: PeerId) -> bool {
+        match self.swarm.behaviour_mut().kademlia.remove_peer(&peer) {
+            Some(dead_peer) => {
+                self.update_on_peer_removal(*dead_peer.node.key.preimage());
+                true
+            }
+            None => false,
+        }
+    }
     /// Issues recorded against peers: (peer, issue names in recording order, considered bad).
     pub fn verif_node_issues(&self) -> Vec<(PeerId, Vec<String>, bool)> {
         self.bad_nodes
